@@ -140,9 +140,11 @@ func runDirectCase(o *hx.Out, k int, r *prng.R, u *universe, fixed int) {
 		useSigner = true
 	}
 	if fixed >= 4 {
-		// the entry script's hash comes back deeper in the chain (see below): CalledByEntry signers and rules
+		// the entry script's hash comes back deeper in the chain / the depth sweep (see below): a CalledByEntry scope,
+		// an Allow rule and a Deny rule on ConditionCalledByEntry
 		signers = []signer{{account: smallHash(0xa1), scopes: 0x01},
-			{account: smallHash(0xa2), scopes: 0x40, rules: []rule{{action: 1, c: &cond{kind: kEntry}}}}}
+			{account: smallHash(0xa2), scopes: 0x40, rules: []rule{{action: 1, c: &cond{kind: kEntry}}}},
+			{account: smallHash(0xa3), scopes: 0x40, rules: []rule{{action: 0, c: &cond{kind: kEntry}}, {action: 1, c: &cond{kind: kBool, b: true}}}}}
 		noTx, useSigner = false, false
 	}
 	// the interop context
@@ -234,7 +236,66 @@ func runDirectCase(o *hx.Out, k int, r *prng.R, u *universe, fixed int) {
 		return false
 	}
 
-	if fixed >= 4 {
+	if fixed >= 6 {
+		// THE DEPTH SWEEP: one script context per step (every load kind in turn, so the level of nesting really grows —
+		// CALL would not), up to the invocation stack limit and one beyond; after EVERY load the getters are read and
+		// the three entry-relation signers are checked: whatever the code keeps the entry relation in (a pointer chain,
+		// a counter of any width), every depth 1..1024 is compared with the model and judged by the oracle
+		for d := 1; d <= vm.MaxInvocationStackSize+1 && !stopped; d++ {
+			sc := retScript(d % 251)
+			h160 := hash.Hash160(sc)
+			given := u.hashes[d%len(u.hashes)]
+			c := cur()
+			var f string
+			switch {
+			case d == 1:
+				add("LW " + hTok(h160) + " 15")
+				f = guard(func() { v.LoadWithFlags(sc, callflag.All) })
+				push(frame{hash: h160, rs: true})
+			case d%4 == 0:
+				add("LS " + hTok(h160) + " 15")
+				f = guard(func() { v.LoadScriptWithFlags(sc, callflag.All) })
+				push(frame{hash: h160, caller: c, rs: true})
+			case d%4 == 1:
+				add("LD " + hTok(h160) + " 15")
+				f = guard(func() { v.LoadDynamicScript(sc, callflag.All) })
+				push(frame{hash: h160, caller: c, rs: true})
+			case d%4 == 2:
+				add(fmt.Sprintf("LH %s %s 15", hTok(h160), hTok(given)))
+				f = guard(func() { v.LoadScriptWithHash(sc, given, callflag.All) })
+				push(frame{hash: given, caller: c, rs: true})
+			default:
+				add(fmt.Sprintf("LN %s %s %s 15 0", hTok(h160), hTok(c), hTok(given)))
+				f = guard(func() {
+					v.LoadNEFMethod(&nef.File{Script: sc}, &manifest.Manifest{}, c, given, callflag.All, true, 0, -1, nil, nil, false)
+				})
+				push(frame{hash: given, caller: c, rs: true})
+			}
+			if fault(f) {
+				break
+			}
+			observe()
+			e := shadow[len(shadow)-1].env(contracts)
+			for _, h := range []util.Uint160{smallHash(0xa1), smallHash(0xa2), smallHash(0xa3)} {
+				add("CH " + hTok(h))
+				res, err := runtime.CheckHashedWitness(ic, h)
+				ob := fmt.Sprint(res)
+				if err != nil {
+					ob = classifyErr(err)
+					stopped = true
+				}
+				obs = append(obs, ob)
+				dd := d
+				judge(o, k, "direct", u, e, signers, h, ob, func() string {
+					return fmt.Sprintf("depth sweep: %d script contexts, CheckHashedWitness(%s)", dd, hTok(h))
+				})
+				if stopped {
+					break
+				}
+			}
+		}
+		o.Count("direct:fixed-depth-sweep-1..1025")
+	} else if fixed >= 4 {
 		// entry script S -> contract -> a dynamic script that is a byte-for-byte copy of S (or a contract loaded with
 		// S's hash as explicit caller) -> contract: the innermost context's calling hash EQUALS the entry hash,
 		// but it is four loads deep — IsCalledByEntry is about script contexts, not script hashes
